@@ -4,6 +4,7 @@ import M3d.Model.C2F
 import M3d.Model.SoupFast
 import M3d.Model.RectSpec
 import M3d.Model.McFan
+import M3d.Model.RectMesh
 import M3d.Gen.McTable
 /-! Line-protocol handler for C01. Core-only. -/
 namespace M3d.Drv.C01
@@ -236,6 +237,56 @@ def handleMcC2F (ws : List String) : Option String := do
       [t.1.1, t.1.2.1, t.1.2.2, t.2.1.1, t.2.1.2.1, t.2.1.2.2, t.2.2.1, t.2.2.2.1, t.2.2.2.2])
     some s!"balanced={boolStr (balancedOk n ts)} fans={boolStr (fanCyclesOk n ts)} outward={boolStr outward} {h}"
 
+/-- `mcs nx ny nz bits tag…` : a SEARCHED member of the marching-cubes family (`MarchingCubesSearch`,
+`MarchingCubesSearchFilter`, the mesh of `MarchingCubesInterior`) on a solid with this lattice labelling (lattice
+POINTS, outer layer included), whatever the solid answers between the lattice points.  The harness snapped every
+real vertex to the lattice edge it lies STRICTLY inside of; the answer is the plain lattice mesh
+(`M3d.C01.search_vertex_strictly_inside_edge`, `search_positions_distinct`,
+`mc_search_edges_balanced_on_every_lattice`, `mc_search_fans_one_cycle_on_every_lattice`). -/
+def handleMcs (ws : List String) : Option String := do
+  let nx :: ny :: nz :: bits :: _ := ws | none
+  let nx ← nx.toNat?; let ny ← ny.toNat?; let nz ← nz.toNat?
+  let b := bitsOf bits
+  if b.size ≠ nx * ny * nz then none
+  let labF := lab3p b nx ny nz
+  if !outerEmpty3 labF nx ny nz then some "outer-layer-not-empty"
+  else
+    let mesh := mcMesh Gen.mcTable (nx - 1) (ny - 1) (nz - 1) labF
+    let wx := 2 * nx + 1; let wy := 2 * ny + 1; let wz := 2 * nz + 1
+    let enc : GV → Nat := fun v => v.1 + wx * (v.2.1 + wy * v.2.2)
+    let ts : List (Nat × Nat × Nat) := mesh.map fun t => (enc t.1, enc t.2.1, enc t.2.2)
+    let n := wx * wy * wz
+    let vol : Int := mesh.foldl (fun acc t =>
+      let a := t.1; let b := t.2.1; let c := t.2.2
+      let ax : Int := a.1; let ay : Int := a.2.1; let az : Int := a.2.2
+      let bx : Int := b.1; let by' : Int := b.2.1; let bz : Int := b.2.2
+      let cx : Int := c.1; let cy : Int := c.2.1; let cz : Int := c.2.2
+      acc + (ax * (by' * cz - bz * cy) - ay * (bx * cz - bz * cx) + az * (bx * cy - by' * cx))) 0
+    let outward := mesh.isEmpty || vol > 0
+    let h := msetHash (mesh.map fun t =>
+      [t.1.1, t.1.2.1, t.1.2.2, t.2.1.1, t.2.1.2.1, t.2.1.2.2, t.2.2.1, t.2.2.2.1, t.2.2.2.2])
+    some s!"balanced={boolStr (balancedOk n ts)} fans={boolStr (fanCyclesOk n ts)} outward={boolStr outward} {h}"
+
+/-- `mss nx ny bits tag…` : `MarchingSquaresSearch(+Filter)`, as `mcs`
+(`M3d.C01.ms_search_closed_on_every_lattice`). -/
+def handleMss (ws : List String) : Option String := do
+  let nx :: ny :: bits :: _ := ws | none
+  let nx ← nx.toNat?; let ny ← ny.toNat?
+  let b := bitsOf bits
+  if b.size ≠ nx * ny then none
+  let labF := lab2p b nx ny
+  if !outerEmpty2 labF nx ny then some "outer-layer-not-empty"
+  else
+    let mesh := msMesh Gen.msTable (nx - 1) (ny - 1) labF
+    let w := 2 * nx + 1
+    let ss : List (Nat × Nat) := mesh.map fun s => (s.1.1 + w * s.1.2, s.2.1 + w * s.2.2)
+    let area2 : Int := mesh.foldl (fun acc s =>
+      let x1 : Int := s.1.1; let y1 : Int := s.1.2; let x2 : Int := s.2.1; let y2 : Int := s.2.2
+      acc + (x1 * y2 - x2 * y1)) 0
+    let outward := mesh.isEmpty || area2 < 0
+    let h := msetHash (mesh.map fun s => [s.1.1, s.1.2, s.2.1, s.2.2])
+    some s!"inout={boolStr (inOutOk ss)} outward={boolStr outward} {h}"
+
 /-- `same <what> tag…` : the harness compared the coarse-to-fine output face-for-face (exact float
 coordinates) with the direct fine `Marching…Search` output of the same solid; the theorems
 `c2f_*_under_documented_cover` (through `M3d.C12.c2f_ms_sound / c2f_mc_sound`) demand `same`. -/
@@ -281,6 +332,106 @@ def handleRectSet (ws : List String) : Option String := do
   if v.degenerate then some "degenerate-sample-position"
   else some s!"balanced={boolStr (balancedOk nv ts)} fans={boolStr (fanCyclesOk nv ts)} outward={boolStr (decide (vol > 0))} tri={boolStr v.tri} wind={boolStr v.wind} vol={boolStr v.vol}"
 
+/-! #### box-set histories (`Add`, `Remove`, `AddRectSet`, `RemoveRectSet`) -/
+
+open M3d.RectSet in
+/-- `[ (a|r <6 hex floats> | A [ … ] | R [ … ])* ]` -/
+partial def parseHist (h : Hist Rat) : List String → Option (Hist Rat × List String)
+  | "]" :: ws => some (h, ws)
+  | op :: ws =>
+    if op == "a" || op == "r" then do
+      let cs ← (ws.take 6).mapM fun t => do
+        let n ← parseHex t
+        ratOfBits n.toUInt64
+      let [a, b, c, d, e, f] := cs | none
+      let r : Rect Rat := ⟨⟨a, b, c⟩, ⟨d, e, f⟩⟩
+      parseHist (if op == "a" then .add h r else .remove h r) (ws.drop 6)
+    else if op == "A" || op == "R" then do
+      let "[" :: ws := ws | none
+      let (h1, ws) ← parseHist .new ws
+      parseHist (if op == "A" then .addSet h h1 else .removeSet h h1) ws
+    else none
+  | [] => none
+
+def ratKey (r : Rat) : List Nat := [if r.num < 0 then 2 * r.num.natAbs + 1 else 2 * r.num.natAbs, r.den]
+
+open M3d.RectSet in
+def v3Key (v : V3 Rat) : List Nat := ratKey v.x ++ ratKey v.y ++ ratKey v.z
+
+open M3d.RectSet in
+/-- `rsmesh [ history ]` : `RectSet.ExactMesh()` after the history — the stored boxes by C04's model of the
+operations (`M3d.RectSet.Hist.eval`), the face cancellation by `M3d.RectMesh.exactMesh`; answer = multiset hash of
+the triangles (exact coordinates).  Validates the faithful model that `M3d.C01.exactmesh_*` are about. -/
+def handleRsMesh (ws : List String) : Option String := do
+  let "[" :: ws := ws | none
+  let (h, _) ← parseHist .new ws
+  let tris := RectMesh.exactMesh h.eval.rects
+  some (msetHash (tris.map fun t => v3Key t.1 ++ v3Key t.2.1 ++ v3Key t.2.2))
+
+open M3d.RectSet in
+/-- `meshrect <lo.x lo.y lo.z hi.x hi.y hi.z : hex>` : `model3d.NewMeshRect` — the model triangle list
+(`M3d.RectMesh.meshRect`, `M3d.C01.mesh_rect_is_closed_manifold`), as a multiset hash over exact coordinates. -/
+def handleMeshRect (ws : List String) : Option String := do
+  let cs ← (ws.take 6).mapM fun t => do
+    let n ← parseHex t
+    ratOfBits n.toUInt64
+  let [a, b, c, d, e, f] := cs | none
+  if !(a < d && b < e && c < f) then some "not-positive-extent"
+  else
+    let tris := RectMesh.meshRect (⟨⟨a, b, c⟩, ⟨d, e, f⟩⟩ : Rect Rat)
+    some (msetHash (tris.map fun t => v3Key t.1 ++ v3Key t.2.1 ++ v3Key t.2.2))
+
+/-- `meshrect2 <lo.x lo.y hi.x hi.y : hex>` : `model2d.NewMeshRect` (`M3d.C01.mesh_rect2_is_closed`). -/
+def handleMeshRect2 (ws : List String) : Option String := do
+  let cs ← (ws.take 4).mapM fun t => do
+    let n ← parseHex t
+    ratOfBits n.toUInt64
+  let [a, b, c, d] := cs | none
+  if !(a < c && b < d) then some "not-positive-extent"
+  else
+    let segs := RectMesh.meshRect2 (a, b) (c, d)
+    some (msetHash (segs.map fun s => ratKey s.1.1 ++ ratKey s.1.2 ++ ratKey s.2.1 ++ ratKey s.2.2))
+
+open M3d.RectSet in
+/-- `rectops [ history ] nv <x y z hex>*nv nt <a b c>*nt` : `RectSet.Mesh()` after a history with removals, judged
+against the point set of the history (`Hist.sem` at generic points = the kept cells of the full grid) on the grid
+of its ESSENTIAL planes. -/
+def handleRectOps (ws : List String) : Option String := do
+  let "[" :: ws := ws | none
+  let (h, ws) ← parseHist .new ws
+  let nv ← (← ws.head?).toNat?
+  let cs ← ((ws.drop 1).take (3 * nv)).mapM fun t => do
+    let n ← parseHex t
+    ratOfBits n.toUInt64
+  if cs.length ≠ 3 * nv then none
+  let rec trip : List Rat → List (Rat × Rat × Rat)
+    | a :: b :: c :: r => (a, b, c) :: trip r
+    | _ => []
+  let vs := (trip cs).toArray
+  let ws := ws.drop (1 + 3 * nv)
+  let nt ← (← ws.head?).toNat?
+  let ids ← parseNats ((ws.drop 1).take (3 * nt))
+  if ids.length ≠ 3 * nt then none
+  let ts := tripleUp ids
+  let tris := ts.map fun t => (vs.getD t.1 (0,0,0), vs.getD t.2.1 (0,0,0), vs.getD t.2.2 (0,0,0))
+  let all : List RectSpec.Box := h.boxes.map fun r => { lo := (r.lo.x, r.lo.y, r.lo.z), hi := (r.hi.x, r.hi.y, r.hi.z) }
+  let fx := RectSpec.splits all 0; let fy := RectSpec.splits all 1; let fz := RectSpec.splits all 2
+  let sem : RectSpec.P3 → Bool := fun p => h.sem ⟨p.1, p.2.1, p.2.2⟩
+  let kept := RectSpec.keptCells sem fx fy fz
+  let ex := RectSpec.essentialSplits sem fx fy fz 0
+  let ey := RectSpec.essentialSplits sem fx fy fz 1
+  let ez := RectSpec.essentialSplits sem fx fy fz 2
+  if kept.isEmpty then
+    some (if ts.isEmpty then "empty-set empty-mesh" else "empty-set nonempty-mesh")
+  else
+    let onGrid := vs.all fun p => fx.contains p.1 && fy.contains p.2.1 && fz.contains p.2.2
+    let fgaps := RectSpec.gapsOf fx ++ RectSpec.gapsOf fy ++ RectSpec.gapsOf fz
+    let fmin := RectSpec.minList (fgaps.headD 1) fgaps
+    let v := RectSpec.judgeWith kept ex ey ez tris onGrid (some (fmin / 4))
+    let vol := RectSpec.vol6 tris
+    if v.degenerate then some "degenerate-sample-position"
+    else some s!"balanced={boolStr (balancedOk nv ts)} fans={boolStr (fanCyclesOk nv ts)} outward={boolStr (decide (vol > 0))} tri={boolStr v.tri} wind={boolStr v.wind} vol={boolStr v.vol}"
+
 /-- `tablecheck` : which local obligations of Props/C01 fail on the regenerated tables, and where
 (used to name the failing configuration when a theorem no longer checks). -/
 def handleTableCheck : String :=
@@ -307,8 +458,14 @@ def handleAll (ws : List String) : Option String :=
   | "soup2" :: rest => handleSoup2 rest
   | "msc2f" :: rest => handleMsC2F rest
   | "mcc2f" :: rest => handleMcC2F rest
+  | "mcs" :: rest => handleMcs rest
+  | "mss" :: rest => handleMss rest
   | "same" :: rest => handleSame rest
   | "rectset" :: rest => handleRectSet rest
+  | "rsmesh" :: rest => handleRsMesh rest
+  | "meshrect" :: rest => handleMeshRect rest
+  | "meshrect2" :: rest => handleMeshRect2 rest
+  | "rectops" :: rest => handleRectOps rest
   | _ => none
 
 end M3d.Drv.C01
